@@ -80,7 +80,7 @@ def gen_plan(rng, tier, index):
             'k_rdm': rng.randint(1, 6), 'k_pattern': rng.randint(1, 6), 'k': rng.randint(1, 5),
             'n_rdm': rng.randint(0, 4), 'n_pattern': rng.randint(0, 5), 'n_cv': rng.randint(1, 4),
             'use_default_k': rng.chance(0.15),
-            'prehistory': rng.pick([None, None, None, 'subset_reorder', 'subsample_sort', 'item_reorder', 'subset_pattern_sort', 'self_fold_sort', 'self_fold_sort']) if mode == 'A' else None,
+            'prehistory': rng.pick([None, None, None, 'subset_reorder', 'subsample_sort', 'item_reorder', 'subset_pattern_sort', 'self_fold_sort', 'self_fold_sort', 'self_fold_relabel', 'self_fold_relabel']) if mode == 'A' else None,
             'faults': {'rate': rng.pick([0.0, 0.3, 0.6]),
                        'kinds': rng.subset(SHUFFLE_FAULTS + ['all_same', 'two_unique', 'perm', 'identity'], 0.3, 1.0)}}
     if mode == 'B':
@@ -277,7 +277,8 @@ def oracle_A(ctx, plan, src, tabs, res, info, value_fn=None, prefix=''):
         for name, part in (('train', tr), ('test', te), ('ceil', ce)):
             if part is None:
                 continue
-            probs = check_assoc(part[0], *tabs, **({'value_fn': value_fn} if value_fn else {}))
+            probs = check_assoc(part[0], *tabs, **({'value_fn': value_fn} if value_fn else {}),
+                                **({'ignore_keys': ('index', 'grp')} if plan.get('prehistory') == 'self_fold_relabel' else {}))
             if probs:
                 ctx.violation('folds_ref.assoc', f'{sig}:{name}:{probs[0][0]}',
                               f'{g} fold {f} {name} set: {probs[0][1]}')
@@ -436,6 +437,19 @@ def _prehistory(plan, src):
             except Exception:
                 pass
             src.sort_by(uid='alpha')
+            return
+        elif ph == 'self_fold_relabel':
+            # the data object itself was folded before, then the user renamed its groups (same members, new names): the
+            # folds made now follow the labels as they are now
+            try:
+                _call_generator(plan, src)
+            except Exception:
+                pass
+            for dd in (src.rdm_descriptors, src.pattern_descriptors):
+                if 'grp' in dd:
+                    old_v = list(dd['grp']) if not isinstance(dd['grp'], np.ndarray) else dd['grp'].tolist()
+                    new_v = [(v + 'q') if isinstance(v, str) else (v + 100) for v in old_v]
+                    dd['grp'] = np.array(new_v) if isinstance(dd['grp'], np.ndarray) else new_v
             return
         elif ph == 'item_reorder':
             child = src[0]
